@@ -46,7 +46,7 @@ MUTS = {
          "  static size_t compute_encoded_size(detail::SizeCacheVector&, T const& eager) noexcept\n  {\n    (void)fmtquill::formatted_size(\"{}\", eager);")]),
     "c11_new_in_reserve_path": ("C11", "break", C11_REPAIR + [
         ("include/quill/Logger.h", "    std::byte* write_buffer = _prepare_write_buffer(total_size);\n\n    if constexpr ((frontend_options_t::queue_type == QueueType::BoundedDropping)",
-         "    std::byte* write_buffer = _prepare_write_buffer(total_size);\n    delete new uint64_t{total_size};\n\n    if constexpr ((frontend_options_t::queue_type == QueueType::BoundedDropping)")]),
+         "    std::byte* write_buffer = _prepare_write_buffer(total_size);\n    { std::byte* volatile staging = new std::byte[total_size]; delete[] staging; }\n\n    if constexpr ((frontend_options_t::queue_type == QueueType::BoundedDropping)")]),
     "c11_map_codec_copies_elements_again": ("C11", "break", [   # reverts fix commit 9f9f378 (the deviation this check found)
         (f, "        total_size += Codec<Key>::compute_encoded_size(conditional_arg_size_cache, elem.first);\n"
             "        total_size += Codec<T>::compute_encoded_size(conditional_arg_size_cache, elem.second);",
@@ -73,6 +73,8 @@ def run_one(name):
             env = dict(os.environ, VERIF_REPO=str(d), VERIF_CODEC_REUSE_CASES="1")
             r = subprocess.run([str(vlib.VERIF / "check"), prop, "--tier", "quick"], capture_output=True, text=True, env=env)
             verdict = [l for l in (r.stdout + r.stderr).splitlines() if l.startswith(("VIOLATION", "OK ", "KNOWN", "INFRA", "  ")) and "[build]" not in l]
+            if r.returncode == 2:
+                verdict = (r.stdout + r.stderr).splitlines()[-6:]
             print(f"== {name} [{kind}] {prop}: exit {r.returncode}")
             for l in verdict[:8]:
                 print("   " + l[:400])
